@@ -187,6 +187,8 @@ func (w *world) muxApply(op string) string {
 		} else {
 			res = "f"
 		}
+	case strings.HasPrefix(op, "W") || strings.HasPrefix(op, "V"):
+		return w.muxRace(op)
 	case strings.HasPrefix(op, "N"):
 		ctx := muxCtx(num("N"))
 		rec := &streamRec{conn: -1}
@@ -374,6 +376,10 @@ func (w *world) muxValid(op string) bool {
 		return slotOK(num("I"))
 	case strings.HasPrefix(op, "N"):
 		return slotOK(num("N"))
+	case strings.HasPrefix(op, "W"):
+		return slotOK(num("W"))
+	case strings.HasPrefix(op, "V"):
+		return slotOK(num("V"))
 	case strings.HasPrefix(op, "O"):
 		return slotOK(num("O"))
 	case strings.HasPrefix(op, "R"):
